@@ -371,7 +371,7 @@ OPTS = {'quick': {'time_budget': 70}, 'thorough': {'time_budget': 900}}
 
 META = {
     'explanation': "C16: pairs of tables sharing the SAME symbolic dense matrix but built through different routes (sparse layouts, index orders, "
-                   "explicit zeros, dense / triple / COO constructor input, sort+inverse, filter-keeping-all, copy) with read accessors interleaved "
+                   "explicit zeros, dense / triple / COO constructor input, sort+inverse, filter-keeping-all, a larger table filtered down, renaming by a permutation of the names, copy) with read-only calls interleaved "
                    "must compare equal (both directions, !=, reflexive, copy, transitive through the copy), answer per-ID / per-cell queries with "
                    "the same terms and export the same TSV / JSON documents (symbolic documents compared chunk by chunk, holes by the solver; HDF5 stores in the thorough tier); pairs assumed to differ in exactly one value / ID / order / metadata entry / type must compare unequal.",
     'encoded': {'biom/table.py': ['__eq__', '__ne__', 'descriptive_equality', '_data_equality', 'nnz', 'data', 'get_value_by_ids', 'copy',
